@@ -510,7 +510,12 @@ def tree_history(g, prog, nops=12, inst="o0", toggles=True, collections=True, fr
             hist.append({"op": "set", "o": inst, "path": list(p), "v": g.rand_val(fd["w"], fd["s"])})
         elif c < 0.38 and toggles:
             rands = [(p, fd) for p, fd in scal if fd["r"] and not any(isinstance(x, int) for x in p)]
-            if rands:
+            nonr = [(p, fd) for p, fd in scal if not fd["r"] and fd["k"] == "int" and not any(isinstance(x, int) for x in p)]
+            if nonr and r.random() < 0.25:
+                # rand_mode written to a field that is not declared random: it stays a constant
+                p, fd = r.choice(nonr)
+                hist.append({"op": "rand_mode", "o": inst, "path": list(p), "v": r.random() < 0.7})
+            elif rands:
                 p, fd = r.choice(rands)
                 hist.append({"op": "rand_mode", "o": inst, "path": list(p), "v": r.random() < 0.4})
         elif c < 0.50 and collections:
@@ -640,8 +645,10 @@ def hierarchy_program(rng, max_bits=9):
         over = [n for n in names if r.random() < 0.55]
         for n in over:
             prog["classes"][cn]["blocks"].append(g.block(sc, n, nst=r.randint(1, 2), depth=1, sdepth=1))
-        if r.random() < 0.4:
-            nn = "c%d" % (len(names) + d + 2)
+        if r.random() < 0.5:
+            # a block of its own; its name sorts before or after the inherited ones (blocks are elaborated in
+            # dir() order, so the position of an inherited block differs between base and derived class)
+            nn = "%s%d" % (r.choice(["a", "c"]), len(names) + d + 2)
             prog["classes"][cn]["blocks"].append(g.block(sc, nn, nst=1, depth=1, sdepth=0))
         prev = cn
         chain.append(cn)
@@ -999,8 +1006,9 @@ def list_program(rng, max_points=1 << 12, dyn_fe=False):
             else:
                 st.append(["fe", ["l"], "it", [["if", [[cond, [inner]]], [["e", ["b", r.choice(["!=", ">="]), ["it"], lit()]]] if r.random() < 0.5 else None]]])
         elif c < 0.42:
-            st.append(["fe", ["l"], "idx", [["e", ["b", r.choice(["==", "!=", ">="]), ["el", ["l"], ["idx"]],
-                                                     ["idx"] if not esg else lit()]]]])
+            # element against its index (or index arithmetic that goes negative), also for signed elements
+            ix = ["idx"] if r.random() < 0.6 else ["b", "-", ["idx"], ["c", r.randint(1, 2)]]
+            st.append(["fe", ["l"], "idx", [["e", ["b", r.choice(["==", "!=", ">=", "<", "<=", ">"]), ["el", ["l"], ["idx"]], ix]]]])
         elif c < 0.58:
             op = r.choice([">", ">=", "!=", "<"])
             st.append(["fe", ["l"], "both", [["if", [[["b", ">", ["idx"], ["c", 0]],
@@ -1016,6 +1024,19 @@ def list_program(rng, max_points=1 << 12, dyn_fe=False):
             st.append(["uvec", [["l"], ["m"]]])
         elif second is not None:
             st.append(["fe", ["m"], "both", [["e", ["b", r.choice(["<=", "!="]), ["it"], ["el", ["l"], ["idx"]]]]]])
+    if kind == "fixed" and L["sz"] >= 2 and not esg and r.random() < 0.3:
+        # single elements named by a literal index, related to each other and to a scalar in separate statements
+        # (each statement may join two groups of related variables through the subscript)
+        i, j = r.sample(range(L["sz"]), 2)
+        sub = [["e", ["b", r.choice(["<", "<=", "!="]), ["f", ["l", i]], ["f", ["l", j]]]],
+               ["e", ["b", r.choice(["<", "<=", "!=", ">"]), ["f", ["a"]], ["f", ["l", r.choice([i, j])]]]]]
+        if r.random() < 0.5:
+            sub.insert(0, ["e", ["b", r.choice(["<", ">", "!="]), ["f", ["a"]], ["c", r.randint(0, 3)]]])
+        if r.random() < 0.5:
+            sub[-1], sub[-2] = sub[-2], sub[-1]
+        st_sub = sub
+    else:
+        st_sub = []
     if objlist is not None and objlist.get("rsz"):
         c = r.random()
         if c < 0.5:
@@ -1035,6 +1056,10 @@ def list_program(rng, max_points=1 << 12, dyn_fe=False):
         if r.random() < 0.4:
             st.append(["e", ["b", r.choice(["==", "<"]), ["f", ["ol", 0, "x"]], ["f", ["a"]]]])
     r.shuffle(st)
+    if st_sub:
+        # kept in this order at a random position
+        k = r.randint(0, len(st))
+        st[k:k] = st_sub
     # size constraints first keeps the source readable; order is semantically irrelevant
     nb = r.choice([1, 2])
     if nb == 1 or len(st) < 2:
@@ -1083,12 +1108,16 @@ def list_history(g, prog, ncalls=4, obj_edits=False):
                     hist.append({"op": "set", "o": "o0", "path": [fd["n"]], "v": g.rand_val(fd["w"], fd["s"])})
         if obj_edits and ci > 0 and r.random() < 0.2 and any(fd["n"] == "ol" for fd in T["fields"]):
             # the user replaces / extends the objects of the list of objects between the calls
-            if r.random() < 0.6:
+            c3 = r.random()
+            if c3 < 0.4:
                 hist.append({"op": "l_clear", "o": "o0", "path": ["ol"]})
                 for _k in range(r.randint(1, 2)):
                     hist.append({"op": "l_append", "o": "o0", "path": ["ol"]})
-            else:
+            elif c3 < 0.7:
                 hist.append({"op": "l_append", "o": "o0", "path": ["ol"]})
+            else:
+                # replace one object of the list by a new one
+                hist.append({"op": "l_setobj", "o": "o0", "path": ["ol"], "i": 0})
         c2 = r.random()
         if prog.get("_dyn_fe") and c2 < 0.45:
             inl = [["e", ["dyn", [], "dl"]]]
